@@ -10,8 +10,8 @@ from .. import recon as R
 ID = "C07"
 LEVEL = "proof"
 PROP_FILE = "Properties/C07.v"
-PROOF_FILES = ["Proofs/LcaNodeProofs.v", "Proofs/LcaProofs.v", "Proofs/ReconProofs.v", "Proofs/PathFacts.v", "Model/LcaRec.v", "Model/Recon.v", "Base/PathB.v", "Base/Ext.v"]
-TRUSTED = ["models Model/LcaRec.v (reconcile_lca) and Model/Recon.v (cost evaluator) over bool root paths; "
+PROOF_FILES = ["Gen/ThlGen.v", "Proofs/ThlGenProofs.v", "Gen/TableGen.v", "Proofs/TableGenProofs.v", "Gen/EvalGen.v", "Proofs/EvalGenProofs.v", "Proofs/LcaNodeProofs.v", "Proofs/LcaProofs.v", "Proofs/ReconProofs.v", "Proofs/PathFacts.v", "Model/LcaRec.v", "Model/Recon.v", "Base/PathB.v", "Base/Ext.v"]
+TRUSTED = ["translator translator/pyfun.py + translator/thl_gen.py: reconcile_lca of compute/reconciliation.py is translated into Gen/ThlGen.v on every run and proved to return the dictionary denoting Model/LcaRec.v's reconciliation (C07_gen_reconcile_lca_eq; object nodes = identifiers, the species LCA structure = the path operation lcp)", "models Model/LcaRec.v (reconcile_lca) and Model/Recon.v (cost evaluator) over bool root paths; "
            "that the implementation's ancestry queries are the path notions is property C17"]
 ASSUMES = ["species trees are binary; object trees are binary"]
 RULE = ("inputs = (species shape, object shape, leaf assignment, costs); exhaustive over small shapes and all assignments, random larger; "
@@ -55,6 +55,14 @@ def _gen_inputs(ctx, max_o, max_s, n_rand, rand_o, rand_s):
             S = R.rand_shape(rng, ns)
         cases.append({"S": S, "O": R.rand_otree(rng, rng.randint(2, 12), R.shape_leaves(S))})
     return cases
+
+
+def pre_build(ctx):
+    from translator import table_gen, thl_gen
+    from .. import core
+    changed = table_gen.regenerate(core.REPO)
+    changed = thl_gen.regenerate(core.REPO) or changed
+    ctx.notes.append("Gen/ThlGen.v (reconcile_lca) " + ("regenerated (content changed)" if changed else "regenerated: unchanged"))
 
 
 def batches(ctx):
